@@ -18,7 +18,8 @@
     `consecutive_breaks`      counterexample: a mutator that assumes its two numbers are consecutive (equal to the
                               atomic model when run alone!) makes one number denote two connections under an interleaving
 -/
-import GoNeat.Proofs.ParFrameMut
+import GoNeat.Proofs.ParFrameEpoch
+import GoNeat.Props.C02Epoch
 import GoNeat.Proofs.ParFrameAtomic
 import GoNeat.Model.LegacyParEpoch
 
@@ -72,8 +73,6 @@ structure StartOk (bi : Int) (reg : Reg W) (P : List (Genome W)) (jobs : List (J
   recAbove : ∀ k ∈ regInns reg, bi < k
   le : bi ≤ reg.nextInn
 
-def view0 (P : List (Genome W)) : Local W := ⟨binds P, roles P, [], [], []⟩
-
 def jobPost (P : List (Genome W)) (jobs : List (Job W)) (t : Nat) : Local W → MRes W → Prop :=
   match jobs[t]? with
   | some j => MutPost j.g (view0 P)
@@ -117,51 +116,6 @@ theorem par_mutation_wf (bi : Int) (reg : Reg W) (P : List (Genome W)) (jobs : L
   unfold jobPost at hp
   rw [hj] at hp
   exact ⟨hp.1, hp.2.1.retains, hp.2.1⟩
-
-/-- all finished threads flushed, one after the other -/
-theorem flush_all {α : Type} {bi : Int} {Post : Nat → Local W → α → Prop} {B0 : List Bind} {R0 : List Role} {st : PState W α}
-    (h : Covered bi Post B0 R0 st) :
-    ∃ G Ls, GInv bi B0 R0 st.threads.length st.reg G Ls ∧ ∀ t a, st.threads[t]? = some (.done a) → Post t (Ls t) a := by
-  obtain ⟨G, Ls, hg, hv⟩ := h.ex
-  suffices hk : ∀ k, k ≤ st.threads.length → ∃ G Ls, GInv bi B0 R0 st.threads.length st.reg G Ls ∧
-      (∀ t a, t < k → st.threads[t]? = some (.done a) → Post t (Ls t) a) ∧
-      (∀ t p, k ≤ t → st.threads[t]? = some p → PValid bi (Post t) (Ls t) p) by
-    obtain ⟨G', Ls', hg', h1, _⟩ := hk _ (Nat.le_refl _)
-    refine ⟨G', Ls', hg', fun t a ht => h1 t a ?_ ht⟩
-    rcases Nat.lt_or_ge t st.threads.length with h' | h'
-    · exact h'
-    · rw [List.getElem?_eq_none h'] at ht; cases ht
-  intro k
-  induction k with
-  | zero => intro _; exact ⟨G, Ls, hg, fun _ _ h0 => absurd h0 (Nat.not_lt_zero _), fun t p _ hp => hv t p hp⟩
-  | succ k ih =>
-    intro hk
-    obtain ⟨G1, Ls1, hg1, hd1, hv1⟩ := ih (Nat.le_of_succ_le hk)
-    have hklt : k < st.threads.length := hk
-    cases hp : st.threads[k]? with
-    | none => rw [List.getElem?_eq_getElem hklt] at hp; cases hp
-    | some p =>
-      by_cases hdone : ∃ a, p = .done a
-      · obtain ⟨a, rfl⟩ := hdone
-        obtain ⟨G2, L2, hg2, hpost⟩ := flush hklt (hv1 k _ (Nat.le_refl _) hp) rfl hg1 rfl
-        refine ⟨G2, upd Ls1 k L2, hg2, ?_, ?_⟩
-        · intro t a' ht hta
-          by_cases htk : t = k
-          · subst htk
-            rw [hp] at hta
-            cases hta
-            rw [upd_same]; exact hpost
-          · rw [upd_other _ _ htk]; exact hd1 t a' (by omega) hta
-        · intro t q ht hq
-          rw [upd_other _ _ (by omega)]; exact hv1 t q (by omega) hq
-      · refine ⟨G1, Ls1, hg1, ?_, fun t q ht hq => hv1 t q (by omega) hq⟩
-        intro t a' ht hta
-        by_cases htk : t = k
-        · subst htk
-          rw [hp] at hta
-          cases hta
-          exact absurd ⟨a', rfl⟩ hdone
-        · exact hd1 t a' (by omega) hta
 
 theorem mem_binds {gs : List (Genome W)} {b : Bind} : b ∈ binds gs ↔ ∃ g ∈ gs, b ∈ gb g := by
   simp [binds, List.mem_flatMap]
@@ -280,6 +234,173 @@ theorem allDone_of_B (st : PState W (MRes W)) (h : allDoneB st = true) : AllDone
   | nextNode k => simp [Prog.result?] at this
   | nextInn k => simp [Prog.result?] at this
   | store i k => simp [Prog.result?] at this
+
+/-! ### the whole epoch of the parallel executor -/
+
+open GoNeat.C02 in
+/-- **C16: an epoch of the parallel executor gives the guarantees of the sequential one - for every schedule.**
+    `parEpoch` (Model/ParEpoch.lean): sequential preparation; one goroutine per species (`reproduceSpeciesP` = the
+    sequential `Species.reproduce`, `reproduceSpeciesP_run`) over the shared registry under an ARBITRARY scheduler list,
+    with arbitrary random numbers per goroutine; the babies collected in an ARBITRARY order of arrival and decoded into
+    fresh objects; `speciate`; `finalizeReproduction`.  If it returns (no goroutine failed), then for a population that
+    satisfies the invariants of the sequential theorems (`UidInv`, `SpIdInv` of C02, `PoolOk` of C01, `PopC03` of C03):
+    * **size / partition / ids (C02)**: exactly `PopSize` organisms, no duplicates, the organism list is the concatenation of
+      the species' member lists, no empty species, nobody of the previous generation, unique genome ids, unique species ids;
+    * **well-formed genomes (C01)**: every genome is `WFT`, and the whole pool invariant `PoolOk` holds again;
+    * **innovation consistency (C03)**: `PopC03` holds for the history extended by every baby - an innovation number
+      denotes one link and a node id one role across ALL genomes that ever lived (`same_number_same_link` applies), counters
+      never fall, the records are cleared;
+    and all invariants hold again, so the statement iterates over any number of epochs (`parEpochs_guarantees`). -/
+theorem parEpoch_guarantees (X H : List (Genome W)) (o : EpochOpts W) (generation : Int) (p p' : Pop W) (ps : ParSchedule)
+    (rs rs' : List Nat) (hu : UidInv p) (hs : SpIdInv p) (hP : PoolOk p.reg (X ++ genomesOfPop p)) (hc : PopC03 H p)
+    (hX : ∀ g ∈ X, GenomeIn H g) (h : parEpoch o generation p ps rs = .ok (p', rs')) :
+    (p'.organisms.length = o.popSize ∧ p'.organisms.Nodup ∧ p'.organisms = orgUids p'.species ∧
+      (∀ s ∈ p'.species, s.orgs ≠ []) ∧ (∀ u ∈ p'.organisms, u ∉ p.organisms) ∧ (genomeIds p'.species).Nodup ∧
+      UidInv p' ∧ SpIdInv p') ∧
+    ((∀ g ∈ genomesOfPop p', WFT g) ∧ PoolOk p'.reg (X ++ genomesOfPop p')) ∧
+    (∃ H', Ext H H' ∧ PopC03 H' p' ∧ CtrLe p.reg p'.reg ∧ ∀ g ∈ X, GenomeIn H' g) := by
+  unfold parEpoch at h
+  split at h
+  · cases h
+  rename_i p1 ex rs1 hprep
+  split at h
+  · cases h
+  rename_i p2 hrep
+  simp only [Except.ok.injEq, Prod.mk.injEq] at h
+  obtain ⟨rfl, _⟩ := h
+  -- the preparation phase (sequential lemmas)
+  obtain ⟨hsubG, hreg⟩ := prepare_genomes o p p1 ex rs rs1 hprep
+  have hP1 : PoolOk p1.reg (X ++ genomesOfPop p1) := by
+    rw [hreg]
+    apply hP.subset
+    intro g hg
+    rcases List.mem_append.mp hg with hx | hg
+    · exact List.mem_append_left _ hx
+    · obtain ⟨s, hs', x, hx, rfl⟩ := mem_genomesOfPop.mp hg
+      obtain ⟨s0, hs0, y, hy, e⟩ := hsubG s hs' x hx
+      exact List.mem_append_right _ (mem_genomesOfPop.mpr ⟨s0, hs0, y, hy, e⟩)
+  obtain ⟨hfrom, _⟩ := prepare_from o p p1 ex rs rs1 hprep
+  have hc1 : PopC03 H p1 := ⟨hreg ▸ hc.inv, AllOrgs.from hc.cov hfrom, by rw [hreg]; exact hc.norec⟩
+  obtain ⟨hu1, hsubO⟩ := prepare_uidInv o p p1 ex rs rs1 hs.nodup hu hprep
+  obtain ⟨hlast, hnu, doomed, mid, _, hsub0, _, hsp⟩ := prepare_spec o p p1 ex rs rs1 hs.nodup hprep
+  have hs1 : SpIdInv p1 := by
+    have hsub : (p1.species.map skey).Sublist (p.species.map skey) := by
+      rw [hsp, map_skeys_of_pres _ _ (by intro s; rfl)]; exact hsub0
+    refine ⟨(ids_sublist_of_keys hsub).nodup hs.nodup, ?_⟩
+    intro s hs'
+    have : skey s ∈ p.species.map skey := hsub.subset (List.mem_map_of_mem hs')
+    obtain ⟨s0, hs0, e⟩ := List.mem_map.mp this
+    have := hs.le s0 hs0
+    have e1 := congrArg Prod.fst e
+    simp only [skey] at e1
+    rw [hlast, ← e1]; exact this
+  -- the parallel phase
+  obtain ⟨babies, regF, G, hlen, hspec, hglob, hbB, hbR, hbabies, hci, hcn⟩ :=
+    parReproduce_facts X H o generation p1 p2 ex ps hP1 hc1 hX hrep
+  obtain ⟨hdu, hdg⟩ := decodeAll_spec p1.nextUid babies
+  obtain ⟨horgs, hreg2⟩ := speciate_orgs o _ _ _ hspec
+  have hreg2' : p2.reg = regF := hreg2
+  obtain ⟨f1, f2, f3, _, f5, _⟩ := finalize_spec p2
+  obtain ⟨hfromF, hregF⟩ := finalize_from p2
+  -- C02: the join
+  have hu1' : UidInv ({ p1 with reg := regF } : Pop W) := ⟨hu1.listed, hu1.below⟩
+  have hs1' : SpIdInv ({ p1 with reg := regF } : Pop W) := ⟨hs1.nodup, hs1.le⟩
+  have hjoin := speciate_finalize_popInv o _ p2 (decodeAll p1.nextUid babies) hu1' hs1'
+    (by rw [hdu]; exact List.nodup_range')
+    (by rw [hdu]; intro u hu'; exact (List.mem_range'_1.mp hu').1)
+    (by rw [← hlen]; have := congrArg List.length hdu; simpa using this) hspec
+  simp only at hjoin
+  obtain ⟨j1, j2, j3, j4, _, j6, j7⟩ := hjoin
+  -- where the new organisms come from
+  have hnewuid : ∀ u ∈ (finalizeReproduction p2).organisms, p1.nextUid ≤ u ∧ u < p1.nextUid + o.popSize := by
+    intro u hu'
+    unfold speciate at hspec
+    split at hspec
+    · cases hspec
+    · obtain ⟨hperm, horg, _⟩ := speciateLoop_uids o _ _ _ hspec
+      simp only at hperm horg
+      rw [f1, f3, List.mem_filter] at hu'
+      obtain ⟨hu1m, hu2m⟩ := hu'
+      rw [horg] at hu2m
+      rcases List.mem_append.mp (hperm.mem_iff.mp hu1m) with hb | hold
+      · rw [hdu] at hb
+        have := List.mem_range'_1.mp hb
+        omega
+      · have := hu1.listed u hold
+        simp [this] at hu2m
+  refine ⟨⟨j1, j2, j3, j4, ?_, j6, ⟨fun u hu' => by rw [j3]; exact hu', fun u hu' => (hnewuid u hu').2⟩, ⟨j7.nodup, j7.le⟩⟩, ?_, ?_⟩
+  · intro u hu' hmem
+    have := hu.below u hmem
+    have := (hnewuid u hu').1
+    omega
+  · -- C01
+    have hpool : PoolOk regF ((X ++ genomesOfPop p1) ++ babies.map (·.genome)) := by
+      apply poolOk_join hglob
+      intro m hm
+      rcases List.mem_append.mp hm with hm0 | hmb
+      · have hin : GenomeIn H m := by
+          rcases List.mem_append.mp hm0 with hx | hg
+          · exact hX m hx
+          · obtain ⟨s, hs', x, hx, rfl⟩ := mem_genomesOfPop.mp hg
+            exact hc1.cov s hs' x hx
+        exact ⟨(hP1 m hm0).wft, ⟨m, hP1 m hm0, LStep.refl m⟩, ⟨m, hm0⟩,
+               fun x hx => hbB _ (hin.1 _ (List.mem_map_of_mem hx)), fun n hn => hbR _ (hin.2 _ (List.mem_map_of_mem hn))⟩
+      · obtain ⟨b, hb, rfl⟩ := List.mem_map.mp hmb
+        exact hbabies b hb
+    have hpool2 : PoolOk p2.reg (X ++ genomesOfPop p2) := by
+      rw [hreg2']
+      apply hpool.subset
+      intro g hg
+      rcases List.mem_append.mp hg with hx | hg
+      · exact List.mem_append_left _ (List.mem_append_left _ hx)
+      · obtain ⟨s, hs', x, hx, rfl⟩ := mem_genomesOfPop.mp hg
+        rcases horgs x (mem_allOrgs.mpr ⟨s, hs', hx⟩) with h' | h'
+        · obtain ⟨s0, hs0, hx0⟩ := mem_allOrgs.mp h'
+          exact List.mem_append_left _ (List.mem_append_right _ (mem_genomesOfPop.mpr ⟨s0, hs0, x, hx0, rfl⟩))
+        · refine List.mem_append_right _ ?_
+          rw [← hdg]; exact List.mem_map_of_mem h'
+    have hfin := finalize_closed X p2 hpool2
+    exact ⟨fun g hg => (hfin g (List.mem_append_right _ hg)).wft, hfin⟩
+  · -- C03
+    refine ⟨babies.map (·.genome) ++ H, ⟨_, rfl⟩, ⟨?_, ?_, f5⟩, ⟨?_, ?_⟩, ?_⟩
+    · show C03.Inv (finalizeReproduction p2).reg _
+      rw [hregF, hreg2']
+      apply inv_cleared hglob
+      · intro b hb
+        rw [binds_append] at hb
+        rcases List.mem_append.mp hb with hb | hb
+        · obtain ⟨g, hg, hbg⟩ := mem_binds.mp hb
+          obtain ⟨x, hx, rfl⟩ := List.mem_map.mp hg
+          obtain ⟨y, hy, rfl⟩ := List.mem_map.mp hbg
+          exact (hbabies x hx).B y hy
+        · exact hbB b hb
+      · intro r hr
+        rw [roles_append] at hr
+        rcases List.mem_append.mp hr with hr | hr
+        · obtain ⟨g, hg, hrg⟩ := mem_roles.mp hr
+          obtain ⟨x, hx, rfl⟩ := List.mem_map.mp hg
+          obtain ⟨y, hy, rfl⟩ := List.mem_map.mp hrg
+          exact (hbabies x hx).R y hy
+        · exact hbR r hr
+    · show C03.Covered _ (finalizeReproduction p2).species
+      refine AllOrgs.from ?_ hfromF
+      intro s hs' x hx
+      rcases horgs x (mem_allOrgs.mpr ⟨s, hs', hx⟩) with h' | h'
+      · obtain ⟨s0, hs0, hx0⟩ := mem_allOrgs.mp h'
+        exact GenomeIn.mono (hc1.cov s0 hs0 x hx0) ⟨_, rfl⟩
+      · have hgm : x.genome ∈ babies.map (·.genome) := by rw [← hdg]; exact List.mem_map_of_mem h'
+        exact ⟨fun b hb => by
+                 obtain ⟨y, hy, rfl⟩ := List.mem_map.mp hb
+                 exact mem_binds_of_mem (List.mem_append_left _ hgm) hy,
+               fun r hr => by
+                 obtain ⟨y, hy, rfl⟩ := List.mem_map.mp hr
+                 exact mem_roles_of_mem (List.mem_append_left _ hgm) hy⟩
+    · show p.reg.nextInn ≤ (finalizeReproduction p2).reg.nextInn
+      rw [← hreg, hregF, hreg2']; exact hci
+    · show p.reg.nextNode ≤ (finalizeReproduction p2).reg.nextNode
+      rw [← hreg, hregF, hreg2']; exact hcn
+    · intro g hg
+      exact GenomeIn.mono (hX g hg) ⟨_, rfl⟩
 
 /-! ### non-vacuity and the counterexample -/
 
